@@ -70,7 +70,7 @@ Lemma pin_scatter_candidate_filters : Gen_C11.scatter_candidate_filters =
 Proof. reflexivity. Qed.
 
 Lemma pin_skel_scatterRegion : Gen_C11.skel_scatterRegion =
-  [Call "NewOrdinaryEngineFilter"; ForE [Call "Target"]; DeferE [ForE [Call "selectCandidates"; Call "selectStore"]]; Call "selectAvailableLeaderStores"; ForE [IfE "!v20" [Call "NewEngineFilter"; Call "newEngineContext"] []]; Call "CreateScatterRegionOperator"; IfE "v22 != nil" [Call "Put"; Ret] []; IfE "v21 != nil" [Call "Put"] []; Ret].
+  [Call "NewOrdinaryEngineFilter"; ForE [Call "Target"]; DeferE [ForE [Call "selectCandidates"; Call "selectStore"]]; Call "selectAvailableLeaderStores"; Call "CreateScatterRegionOperator"; IfE "v20 != nil" [Call "Put"; Ret] []; IfE "v19 != nil" [Call "Put"] []; Ret].
 Proof. reflexivity. Qed.
 
 Lemma pin_skel_selectCandidates : Gen_C11.skel_selectCandidates =
@@ -82,7 +82,7 @@ Lemma pin_skel_selectStore : Gen_C11.skel_selectStore =
 Proof. reflexivity. Qed.
 
 Lemma pin_skel_selectAvailableLeaderStores : Gen_C11.skel_selectAvailableLeaderStores =
-  [ForE [Call "Get"]; Ret].
+  [DeferE [IfE "len(v3) == 0" [Ret] []; ForE [IfE "(v7.Role == placement.Leader || v7.Role == placement.Voter) && placement.MatchLabelConstraints(v6, v7.LabelConstraints)" [Ret] []]; Ret]; ForE [Call "Target"]; IfE "len(v1) == 0" [IfE "peers[v14] != nil && !core.IsLearner(peers[v14])" [Ret] []] []; ForE [Call "Get"]; Ret].
 Proof. reflexivity. Qed.
 
 Lemma pin_skel_Put : Gen_C11.skel_Put =
@@ -98,7 +98,7 @@ Lemma pin_src_selectCandidates : Gen_C11.src_selectCandidates =
 Proof. reflexivity. Qed.
 
 Lemma pin_src_selectAvailableLeaderStores : Gen_C11.src_selectAvailableLeaderStores =
-  "{ v1 := make([]uint64, 0) for v2 := range peers { v3 := r.cluster.GetStore(v2) v4 := v3.GetLabelValue(filter.EngineKey) if len(v4) < 1 && !r.cluster.GetOpts().CheckLabelProperty(opt.RejectLeader, v3.GetLabels()) { v1 = append(v1, v2) } } v5 := uint64(math.MaxUint64) v6 := uint64(0) if len(v1) == 0 { for v7 := range peers { if len(r.cluster.GetStore(v7).GetLabelValue(filter.EngineKey)) < 1 { v1 = append(v1, v7) } } } for _, v8 := range v1 { v9 := context.selectedLeader.Get(v8, group) if v5 > v9 { v5 = v9 v6 = v8 } } return v6 }".
+  "{ v1 := make([]uint64, 0) v2 := &filter.StoreStateFilter{ActionScope: r.name, TransferLeader: true} // With placement rules the leader has to be on a store that a leader or voter rule selects // (the same test as the operator builder's allowLeader, which the force flag skips too). var v3 []*placement.Rule if r.cluster.GetOpts().IsPlacementRulesEnabled() { for _, v4 := range r.cluster.FitRegion(region).RuleFits { v3 = append(v3, v4.Rule) } } v5 := func(v6 *core.StoreInfo) bool { if len(v3) == 0 { return true } for _, v7 := range v3 { if (v7.Role == placement.Leader || v7.Role == placement.Voter) && placement.MatchLabelConstraints(v6, v7.LabelConstraints) { return true } } return false } for v8, v9 := range peers { v10 := r.cluster.GetStore(v8) v11 := v10.GetLabelValue(filter.EngineKey) if len(v11) < 1 && !core.IsLearner(v9) && v2.Target(r.cluster.GetOpts(), v10) && v5(v10) { v1 = append(v1, v8) } } v12 := uint64(math.MaxUint64) v13 := uint64(0) if len(v1) == 0 { if v14 := region.GetLeader().GetStoreId(); peers[v14] != nil && !core.IsLearner(peers[v14]) { return v14 } for v15 := range peers { if len(r.cluster.GetStore(v15).GetLabelValue(filter.EngineKey)) < 1 { v1 = append(v1, v15) } } } for _, v16 := range v1 { v17 := context.selectedLeader.Get(v16, group) if v12 > v17 { v12 = v17 v13 = v16 } } return v13 }".
 Proof. reflexivity. Qed.
 
 Lemma pin_chain_CreateScatterRegionOperator : Gen_C11.chain_CreateScatterRegionOperator =
